@@ -383,9 +383,15 @@ def judge_corrupted(B, hrp, addr, ver, corrupted, weight, sigp, ctx, what):
 
 def check_enumeration(case, ctx):
     B, H = _impl()
-    S = syndrome_table(B.bech32_polymod)
-    # the table is what the reference arithmetic predicts
     Sref = syndrome_table(R.polymod)
+    if hasattr(B, "bech32_polymod"):
+        S = syndrome_table(B.bech32_polymod)
+    else:
+        # internal helper renamed/removed: the enumeration runs over the reference arithmetic (a property of the
+        # code, not of the implementation); the end-to-end part below still goes through the library's encode/decode
+        ctx.count("bech32_polymod-absent: enumeration over the reference arithmetic")
+        S = Sref
+    # the table is what the reference arithmetic predicts
     if S != Sref:
         raise Violation("C11/errors/syndrome-table", "single-symbol syndromes of bech32_polymod differ from GF(32) model")
     stats, problems, cross4 = enumerate_patterns(S)
@@ -466,6 +472,9 @@ def check_errors(case, ctx):
 
 def check_linearity(case, ctx):
     B, H = _impl()
+    if not hasattr(B, "bech32_polymod"):
+        ctx.count("bech32_polymod-absent")
+        return
     x = list(case["x"])
     e = [0] * len(x)
     S = _cached_table(B)
